@@ -878,6 +878,7 @@ func (s *PathState) applyTemplateAt(site ssa.CallInstruction, call *ssa.Call, da
 			ne.Args[j] = tr(a)
 		}
 		ne.Res = tr(e.Res)
+		ne.FnVal = tr(e.FnVal)
 		ne.Inlined = true
 		ne.AtExit = nil
 		if deferred {
